@@ -61,6 +61,14 @@ add('C05', 'exploration',
     'acknowledged per scope) and window <= maximum checked after every step, over maxima 0..2^31-1 changed mid-history.',
     'No manual window increments in this workload (they redefine the maximum); one SETTINGS frame in flight at a time.')
 
+add('C29', 'exploration',
+    'runtime monitoring: exception-classification and output-conservation oracle under API fuzzing',
+    'Every public call with well-typed boundary arguments in idle/open/closed connections and live/closed/forgotten/never-used '
+    'streams: raised exceptions are classified (H2Error, or ValueError/TypeError only when a documented range is really '
+    'violated), the stream-lookup rule (StreamClosedError vs NoSuchStreamError) is judged when the connection FSM was open, '
+    'and a raising call must leave the output buffer empty.',
+    'Reads conn.state_machine.state and the stream-id watermarks (getattr, read-only) only to decide when the lookup rule applies.')
+
 NOT_BUILT_REASON = 'check not built yet in this session (planned in DESIGN.md; no verdict claimed)'
 
 def main():
